@@ -65,9 +65,59 @@ def setup_append(table, rows, **kw):
         raise SetupRejected(f"{type(e).__name__}: {e}") from e
 
 
-def run_read(table, api, flt=None, columns=None, verify=None):
+CONTAINERS = ["list", "tuple", "set", "gen", "map", "iter", "dictkeys", "deque", "range"]
+
+
+def in_container(flt, kind):
+    """The same filter with the value sets of its in / not_in conditions handed over in another container type. One-shot iterators
+    (generator, map, iter) are built afresh on every call: a caller passes such an object once per query."""
+    if not flt or kind in (None, "list"):
+        return flt
+    out = {}
+    for col, cond in flt.items():
+        if isinstance(cond, tuple) and len(cond) == 2 and str(cond[0]).lower() in ("in", "not_in", "not in", "notin") and isinstance(cond[1], (list, tuple)):
+            vals = list(cond[1])
+            try:
+                distinct = len(set(vals)) == len(vals)  # [1, True] or [0.0, -0.0] collapse in a set: keep such value sets as they are
+            except TypeError:
+                distinct = False
+            if kind in ("set", "dictkeys") and not distinct:
+                c = vals
+            elif kind == "tuple":
+                c = tuple(vals)
+            elif kind == "set":
+                try:
+                    c = set(vals)
+                except TypeError:
+                    c = vals
+            elif kind == "gen":
+                c = (v for v in vals)
+            elif kind == "map":
+                c = map(lambda v: v, vals)
+            elif kind == "iter":
+                c = iter(vals)
+            elif kind == "dictkeys":
+                try:
+                    c = dict.fromkeys(vals).keys()
+                except TypeError:
+                    c = vals
+            elif kind == "deque":
+                import collections
+
+                c = collections.deque(vals)
+            elif kind == "range" and vals and all(isinstance(v, int) and not isinstance(v, bool) for v in vals) and max(vals) - min(vals) + 1 == len(vals) and len(set(vals)) == len(vals):
+                c = range(min(vals), max(vals) + 1)
+            else:
+                c = vals
+            out[col] = (cond[0], c)
+        else:
+            out[col] = cond
+    return out
+
+
+def run_read(table, api, flt=None, columns=None, verify=None, container=None):
     """Run one read API and return the list of row dicts."""
-    kw = {"filter": flt, "columns": columns, "verify_checksums": verify}
+    kw = {"filter": in_container(flt, container), "columns": columns, "verify_checksums": verify}
     if api == "scan":
         return table.scan(**kw)
     if api == "scan_par2":
